@@ -785,6 +785,18 @@ class CallGraph:
         """list of Bodies a call site may reach (may be empty for external callees)."""
         if cs.fn is None:
             return []
+        # core's blanket impls `impl<T, U: TryFrom<T>> TryInto<U> for T` / `impl<T, U: From<T>> Into<U> for T` have no MIR
+        # here: x.try_into() / x.into() reach the local `impl TryFrom<T> for U` / `impl From<T> for U`
+        if cs.name in ('try_into', 'into') and (cs.trait or '').endswith(('convert::TryInto', 'convert::Into')):
+            g = [str(x) for x in cs.gargs if not str(x).startswith("'")]
+            if len(g) >= 2:
+                src, dst = canon(g[0], cs.body.crate), canon(g[1], cs.body.crate)
+                want = 'try_from' if cs.name == 'try_into' else 'from'
+                hits = [b for b in self.prog.bodies.values() if b.kind == 'AssocFn' and b.name == want and b.impl_self == dst
+                        and (b.impl_trait or '').endswith('convert::TryFrom' if want == 'try_from' else 'convert::From')
+                        and ('<%s>' % src) in (b.raw.get('impl_trait_full') or '')]
+                if hits:
+                    return hits
         if cs.resolved and cs.res_kind in ('item', 'closure_once', 'shim', 'fnptr'):
             bs = self.by_key.get(cs.res, [])
             if bs:
